@@ -2,7 +2,7 @@
    Model: C07_Model.v (transcription of mpicommunication.hh / communication.hh / mpitraits.hh / mpidata.hh / mpipack.hh),
    Spec: C07_Spec.v.  The MPI library's own collectives are the trusted semantics c07_MPI_*. *)
 From Coq Require Import List NArith ZArith Bool Arith Permutation.
-From DuneV Require Import C07_Model C07_Spec C07_Proofs C07_Proofs_Coll.
+From DuneV Require Import Params_gen C07_Model C07_Spec C07_Proofs C07_Proofs_Coll C07_Proofs_Data.
 Import ListNotations.
 
 (* rrecv (MPI_Mprobe + MPI_Get_count + resize + MPI_Mrecv): for every element type with a non-empty packed size, every sent
@@ -360,3 +360,113 @@ Example C07_collectives_example :
   c07_mpi_gatherv Z (idm Z) 1 [[5; 6]; [7]; []]%Z [2; 1; 0] [3; 0; 6] [[]; [-1; -1; -1; -1; -1; -1; -1]; []]%Z
   = Some [[]; [7; -1; -1; 5; 6; -1; -1]; []]%Z.
 Proof. exact P_collectives_example. Qed.
+
+(* ==== tables and literals RE-READ FROM THE SOURCE on every run (coq/Params_gen.v via tools/params.d/C07.py): an edit of
+   ComposeMPIOp / ComposeMPITraits / MPI_Op_create's commute flag / the size-prefix type / the growth comparison of MPIPack::pack /
+   the receive type of igather re-checks these theorems against the new value ==== *)
+(* ComposeMPITraits: every C type is mapped to an MPI type of the same size and kind (signed / unsigned / real / complex) *)
+Theorem C07_traits_table_sound : c07_traits_table_ok = true.
+Proof. exact P_traits_table_ok. Qed.
+Print Assumptions C07_traits_table_sound.
+
+(* ComposeMPIOp: for intrinsic element types sum / prod / min / max use the MPI op the source selects, and that op computes what the
+   C++ functor (std::plus, std::multiplies, Dune::Min, Dune::Max) computes -- for all operands *)
+Theorem C07_builtin_ops_are_functors : forall i a b, i < 4 -> c07_intrinsic_reduce i a b = c07_functor_sem i a b.
+Proof. exact P_builtin_ops_are_functors. Qed.
+Print Assumptions C07_builtin_ops_are_functors.
+
+(* the user-functor theorem under the commute flag the source passes to MPI_Op_create: commutativity of F is needed exactly when the
+   flag is true (it is); with false the library must keep rank order and associativity suffices *)
+Theorem C07_user_op_under_source_flag : forall (E : Type) (f : E -> E -> E),
+  (forall a b c, f (f a b) c = f a (f b c)) -> (c07_param_op_commute = true -> forall a b, f a b = f b a) ->
+  forall (xs : list (list E)) (t : c07_tree), c07_tree_ok c07_param_op_commute (length xs) t ->
+  c07_tree_eval f xs t = c07_reduce_ranks f xs.
+Proof. exact P_user_op_flag. Qed.
+Print Assumptions C07_user_op_under_source_flag.
+
+(* MPIPack: which kinds of objects get the int size prefix -- decided identically by pack (from the NON-const MPIData) and unpack:
+   none for single objects and static ranges (FieldVector, std::array), one for resizable ranges (vector, string) and MPIPack;
+   had pack() asked the MPIData of const T it holds, no prefix would ever be written *)
+Theorem C07_pack_prefix_decision :
+  (forall k, c07_pack_writes_prefix k = c07_unpack_reads_prefix k) /\
+  c07_pack_writes_prefix C07_KObject = false /\ c07_pack_writes_prefix (C07_KRange false) = false /\
+  c07_pack_writes_prefix (C07_KRange true) = true /\ c07_pack_writes_prefix C07_KPack = true /\
+  (forall k, c07_pack_writes_prefix_const_view k = false).
+Proof. exact P_pack_prefix_decision. Qed.
+Print Assumptions C07_pack_prefix_decision.
+
+(* ==== (count, datatype) AGREEMENT of the two sides of the non-blocking collectives that take two differently described objects ==== *)
+(* igather (code after 954025b, receive type re-read from the source): on the root the type signature received from each rank IS the
+   signature sent, for EVERY pair of descriptions; non-roots receive nothing.  iallgather likewise. *)
+Theorem C07_igather_signature_agreement : forall root din dout,
+  c07_xa_recv_sig (c07_igather_args root root din dout) = c07_xa_send_sig (c07_igather_args root root din dout) /\
+  (forall me, me <> root -> c07_xa_recv_sig (c07_igather_args me root din dout) = []).
+Proof. exact P_igather_agreement. Qed.
+Print Assumptions C07_igather_signature_agreement.
+Theorem C07_iallgather_signature_agreement : forall din dout,
+  c07_xa_recv_sig (c07_iallgather_args din dout) = c07_xa_send_sig (c07_iallgather_args din dout).
+Proof. exact P_iallgather_agreement. Qed.
+Print Assumptions C07_iallgather_signature_agreement.
+(* iscatter: sendcount = in.size()/procs of in's type against out.size() of out's type: they agree whenever one block of the send
+   buffer and the receiving object describe the same layout (e.g. vector<FieldVector<K,n>> scattered into a FieldVector<K,n>) *)
+Theorem C07_iscatter_signature_agreement : forall root procs k din dout, 0 < procs -> c07_md_count din = procs * k ->
+  c07_md_same_layout (C07_MD k (c07_md_tm din)) dout = true ->
+  c07_xa_send_sig (c07_iscatter_args root root procs din dout) = c07_xa_recv_sig (c07_iscatter_args root root procs din dout).
+Proof. exact P_iscatter_agreement. Qed.
+Print Assumptions C07_iscatter_signature_agreement.
+(* the pre-fix igather is refuted: FieldVector<double,3> (3 x double) into vector<FieldVector<double,3>> received 3 FieldVectors per rank,
+   although the two descriptions are the same layout *)
+Theorem C07_igather_old_code_refuted :
+  let din := c07_md_range 3 (c07_dt_basic 8 8) in
+  let dout := c07_md_range 2 (c07_traits_fieldvector 3 (c07_dt_basic 8 8) 0) in
+  c07_xa_recv_sig (c07_igather_args_old 0 0 din dout) <> c07_xa_send_sig (c07_igather_args_old 0 0 din dout) /\
+  c07_md_same_layout din (c07_md_object (c07_traits_fieldvector 3 (c07_dt_basic 8 8) 0)) = true.
+Proof. exact P_igather_old_refuted. Qed.
+Print Assumptions C07_igather_old_code_refuted.
+(* two descriptions that touch the same bytes in the same order (MPIData's n x K view of a FieldVector and MPITraits<FieldVector>)
+   transfer exactly the same bytes, for all memories *)
+Theorem C07_two_descriptions_same_transfer : forall d1 d2, c07_md_same_layout d1 d2 = true -> forall (src dst : c07_mem) base x,
+  c07_unpack_dt (c07_md_tm d1) (c07_md_count d1) (c07_pack_dt (c07_md_tm d1) (c07_md_count d1) src base) dst base x
+  = c07_unpack_dt (c07_md_tm d2) (c07_md_count d2) (c07_pack_dt (c07_md_tm d2) (c07_md_count d2) src base) dst base x.
+Proof. exact P_two_descriptions. Qed.
+Print Assumptions C07_two_descriptions_same_transfer.
+
+(* every byte of an object is mapped by AT MOST ONE entry of a type map accepted by the measured predicate (every field once) *)
+Theorem C07_dt_fields_once : forall tm sz x, c07_tm_wfb tm sz = true ->
+  length (filter (fun e => (fst e <=? x) && (x <? fst e + snd e)) (c07_tm_entries tm)) <= 1.
+Proof. exact P_fields_once. Qed.
+Print Assumptions C07_dt_fields_once.
+
+(* MPIPack::resize / enlarge: new size, cursor untouched, the common prefix survives, enlarge appends *)
+Theorem C07_pack_resize : forall (B : Type) (zeroB : B) (p : c07_pack B) n,
+  let p' := c07_pk_resize B zeroB p n in
+  c07_pk_size B p' = n /\ c07_pk_tell B p' = c07_pk_tell B p /\
+  firstn (Nat.min n (c07_pk_size B p)) (c07_pk_buf B p') = firstn (Nat.min n (c07_pk_size B p)) (c07_pk_buf B p) /\
+  (forall s, c07_pk_buf B (c07_pk_enlarge B zeroB p s) = c07_pk_buf B p ++ repeat zeroB s).
+Proof. exact P_pk_resize. Qed.
+Print Assumptions C07_pack_resize.
+
+(* the measured predicate need not be assumed for the resized traits: it follows from the natural layout facts (members in order, inside
+   the object), so C07_dt_content applies to every such layout *)
+Theorem C07_dt_traits_wf : forall s1 a1 s2 a2 d1 d2 szp szg alg dg dl da szpli szip,
+  (d1 + s1 <= d2 -> d2 + s2 <= szp ->
+     c07_tm_wfb (c07_traits_pair (c07_dt_basic s1 a1) (c07_dt_basic s2 a2) d1 d2 szp) szp = true) /\
+  (da + 1 <= szpli -> c07_tm_wfb (c07_traits_plocalindex da szpli) szpli = true) /\
+  (dg + szg <= dl + da -> dl + da + 1 <= szip ->
+     c07_tm_wfb (c07_traits_indexpair (c07_dt_basic szg alg) dg dl (c07_traits_plocalindex da szpli) szip) szip = true).
+Proof. exact P_traits_wf. Qed.
+Print Assumptions C07_dt_traits_wf.
+
+(* Communication<No_Comm> (after d360660) delivers the ROUTING SPEC at P = 1 directly: C07_sequential_* composed with C07_collectives_are_spec *)
+Theorem C07_sequential_is_spec : forall (E : Type) len sendlen displ (inb out : list E),
+  (len <= length inb -> len <= length out ->
+     wrap E (c07_seq_gather E len inb out) = Some (c07_spec_apply E (idm E) (c07_rt_gather 1 0 len) [inb] [out]) /\
+     wrap E (c07_seq_scatter E len inb out) = Some (c07_spec_apply E (idm E) (c07_rt_scatter 0 len) [inb] [out]) /\
+     wrap E (c07_seq_allgather E len inb out) = Some (c07_spec_apply E (idm E) (c07_rt_allgather 1 len) [inb] [out])) /\
+  (sendlen <= length inb -> displ + sendlen <= length out ->
+     wrap E (c07_seq_gatherv E sendlen displ inb out) = Some (c07_spec_apply E (idm E) (c07_rt_gatherv 0 [sendlen] [displ]) [inb] [out]) /\
+     wrap E (c07_seq_allgatherv E sendlen displ inb out) = Some (c07_spec_apply E (idm E) (c07_rt_allgatherv [sendlen] [displ]) [inb] [out])) /\
+  (displ + sendlen <= length inb -> sendlen <= length out ->
+     wrap E (c07_seq_scatterv E sendlen displ inb out) = Some (c07_spec_apply E (idm E) (c07_rt_scatterv 0 [sendlen] [displ]) [inb] [out])).
+Proof. exact P_sequential_is_spec. Qed.
+Print Assumptions C07_sequential_is_spec.
